@@ -730,8 +730,7 @@ func vhC10C18Front(checkDiagnostics bool) {
 		return
 	}
 	if p.GenerateGraph() != nil {
-		symxCover("C18.front.visit-refused")
-		return
+		return // not reached within these perturbations: the visitors take every one of them
 	}
 	tree, err := p.Validate()
 	symxAssert(err == nil, "C18.front.validation-runs")
